@@ -9,6 +9,15 @@ test is matched *by object identity* with the rendered member it denotes; the mo
 callable is really written is determined by inspection (``__code__.co_filename`` /
 ``inspect.getsourcefile``), not taken from the case.  Objects under test that denote no rendered
 member are appended as records of kind "unexpected".
+
+Inheritance: a record with ``basei`` is a SUT class deriving from a class of the SUT or of the helper
+module (``from helper import B`` / ``import B as al`` / ``hmod.B``).  A member record of the subclass
+with ``inh`` "other" / "sut" is a *view*: nothing is rendered in the subclass, the base-class member
+(method, static method, class method, property, lambda attribute) is merely inherited; a member record
+with ``inh`` "own" and ``src`` is rendered in the subclass under the name of the base-class member and
+overrides it.  An accessible object is matched with a view by the pair (identity of the class it is
+listed for, identity of the underlying function), so `Sub.create` of an inherited class method is
+told apart from `Base.create`.
 """
 
 from __future__ import annotations
@@ -307,7 +316,13 @@ def _locate(rd: Rendered, sutmod, helpermod):
                 obj = raw
         else:
             obj = objs[r["src"]]
+            # a view: nothing is written in the subclass, the attribute resolves (statically) to
+            # the very object of the base class -- function, static/class method or property
+            if rd.runtime_name(i) in vars(owner):
+                raise RuntimeError(f"render bug: view {i} is written in the body of its owner")
             got = inspect.getattr_static(owner, rd.runtime_name(i))
+            if isinstance(got, property):
+                got = got.fget
             got = getattr(got, "__func__", got)
             if got is not obj:
                 raise RuntimeError(f"render bug: view {i} does not resolve to the base member")
